@@ -329,6 +329,8 @@ func (c *Ctx) RunC09(tier string) {
 	}
 	rep.Bound += "; a three-instruction file behind a comment line of every length that puts any of its bytes at offset 4096, 8192 or 65536 (LF and CR-LF)"
 
+	rep.Bound += "; every text also through a reader that returns short reads (1, 2, 3, 7, 100 or 4095 bytes per call, rotating)"
+
 	// (c) layout perturbations: every set of <= 2 (quick: <= 1, <= 2 on the first warrior)
 	nw := 0
 	for _, legacy := range []bool{false, true} {
